@@ -6,7 +6,7 @@ depends on this file.  The driver is a stateless line evaluator, so an op carrie
       OP = (parse xH F) | (add i xH) | (select i F) | (filter i F) | (attenuate i ITEM…)
          | (discharge i xLOC xKA CB xRND…) | (verify i) | (validate i REQ…) | (clone i)
          | (header i) | (len i) | (error i) | (undischarged i) | (undischargedFor i xLOC) | (count i F)
-         | (any i F) | (uuids i) | (sets i)
+         | (any i F) | (uuids i) | (sets i) | (string i) | (isEmpty i) | (verifyWith i (keys …) (trust …))
       one output token per op: `<result>~<state of every live bundle>`, tokens joined by " | "
 
   (cache.run (sem share|copy) (order kid|text) (scope every|that) (keys …) (trust …) xPERMLOC (ttl N) (hdrs xH…) (NOW OP)…)
@@ -189,6 +189,18 @@ def bundleOp (sc : Bundle.DischargeScope) (R : Bundle.Resolver) (pl : Bytes) (s 
     let f ← filter? f
     let b := (s.get i).view s.heap
     some (s, toString (!(f.apply b.permLoc b.ts).isEmpty))
+  | .list [.atom "string", i] => do
+    let i ← i.nat?
+    some (s, hxText (tokString ((s.get i).view s.heap).ts))
+  | .list [.atom "isEmpty", i] => do
+    let i ← i.nat?
+    some (s, toString ((s.get i).view s.heap).ts.isEmpty)
+  | .list [.atom "verifyWith", i, ks, tr] => do
+    -- Verify with another resolver than the run's (a key retired or replaced, trust changed)
+    let i ← i.nat?
+    let R' : Bundle.Resolver := ⟨← keys? ks, ← trust? tr⟩
+    let (heap, b) := HBundle.verifyBy s.heap (s.get i) R'.oracle
+    some ({ heap, bs := s.bs.set i b }, setsStr (b.view heap).verifiedSets)
   | .list [.atom "sets", i] => do
     -- the verified caveat sets as they are now (no verification)
     let i ← i.nat?
